@@ -35,6 +35,8 @@ Init == \E c \in {c \in Cfgs : Len(c.sel) = Len(c.kind)} : MInit(c)
 NDeliver    == \E f \in Files : Deliver(f)
 NSkip       == \E f \in Files : Skip(f)
 NVanish     == \E f \in Files : Vanish(f)
+\* in simulation (E2) a crash is drawn less often than the other actions, so that it falls anywhere in a history
+NCrash      == (Scope # "sim" \/ RandomElement(1..8) = 1) /\ Crash
 MkDirs      == pc.f # 0 /\ Step("mkdirs", pc.f)
 Cmp         == pc.f # 0 /\ Step("cmp", pc.f)
 RmTmp       == pc.f # 0 /\ Step("rmtmp", pc.f)
@@ -47,7 +49,7 @@ Rename      == pc.f # 0 /\ Step("rename", pc.f)
 RmDirSrc    == pc.f # 0 /\ Step("rmdir", pc.f)
 RbRemove    == \E g \in MD : Step("rbremove", g)
 
-Next == \/ NDeliver \/ NSkip \/ NVanish \/ Crash \/ Restart \/ EndHandler
+Next == \/ NDeliver \/ NSkip \/ NVanish \/ NCrash \/ Restart \/ EndHandler
         \/ MkDirs \/ Cmp \/ RmTmp \/ CopyBegin \/ CopyEnd \/ Link \/ MvRename \/ Unlink \/ Rename \/ RmDirSrc \/ RbRemove
 
 Spec == Init /\ [][Next]_vars
